@@ -477,6 +477,96 @@ func c10Guard(f func()) (msg string) {
 	}
 }
 
+// c10Large: buffers of more than 2^16 rows. The row -> value index of an
+// optional column is filled by kernels that add a base to a lane index; the
+// interesting bases are the ones where the sum crosses a multiple of 65536
+// inside the scalar tail of a run (run lengths that are not a multiple of 8).
+func c10Large(c *core.Ctx) {
+	type rowT struct {
+		ID int64 `parquet:"id"`
+		A  int64 `parquet:"a,optional"` // 0 = null
+	}
+	for _, before := range []int{65536 - 6, 65536 - 13, 2*65536 - 3} {
+		var rows []rowT
+		val := func(i int) int64 { return int64(1 + (i*7919)%29) }
+		for i := 0; i < before; i++ {
+			rows = append(rows, rowT{ID: int64(i), A: val(i)})
+		}
+		// null, a run of 15, null, a run of 9, null, a run of 23
+		for _, run := range []int{15, 9, 23} {
+			rows = append(rows, rowT{ID: int64(len(rows))})
+			for k := 0; k < run; k++ {
+				rows = append(rows, rowT{ID: int64(len(rows)), A: val(len(rows))})
+			}
+		}
+		buf := parquet.NewGenericBuffer[rowT](parquet.SortingRowGroupConfig(parquet.SortingColumns(parquet.Ascending("a"), parquet.Ascending("id"))))
+		what := fmt.Sprintf("GenericBuffer of %d rows (optional int64 sorted ascending, runs of 15/9/23 non-null values after %d values)", len(rows), before)
+		replay := map[string]any{"kind": "large-buffer", "values_before": before}
+		bad := ""
+		msg := c10Guard(func() {
+			// one Write call per run, so that the typed path sees the runs
+			for i := 0; i < before; i += 4096 {
+				j := i + 4096
+				if j > before {
+					j = before
+				}
+				buf.Write(rows[i:j])
+			}
+			buf.Write(rows[before:])
+			// Less on the tail against the values
+			for i := before - 4; i+1 < len(rows) && bad == ""; i++ {
+				want := func(x, y rowT) bool {
+					switch {
+					case x.A == 0 || y.A == 0:
+						return x.A != 0 && y.A == 0 // nulls last
+					case x.A != y.A:
+						return x.A < y.A
+					}
+					return x.ID < y.ID
+				}
+				if got := buf.Less(i, i+1); got != want(rows[i], rows[i+1]) {
+					bad = fmt.Sprintf("Less(%d,%d) = %v, rows a=%d and a=%d", i, i+1, got, rows[i].A, rows[i+1].A)
+				}
+			}
+			if bad != "" {
+				return
+			}
+			sort.Sort(buf)
+			out := make([]rowT, len(rows))
+			r := parquet.NewGenericRowGroupReader[rowT](buf)
+			n, _ := r.Read(out)
+			r.Close()
+			if n != len(rows) {
+				bad = fmt.Sprintf("%d rows read back of %d", n, len(rows))
+				return
+			}
+			seen := make([]bool, len(rows))
+			for i, o := range out {
+				if o.ID < 0 || int(o.ID) >= len(rows) || seen[o.ID] || rows[o.ID] != o {
+					bad = fmt.Sprintf("row %d read back as %+v is not an intact row of the input", i, o)
+					return
+				}
+				seen[o.ID] = true
+				if i > 0 {
+					p := out[i-1]
+					ok := (p.A != 0 && o.A == 0) || (p.A != 0 && o.A != 0 && (p.A < o.A || p.A == o.A && p.ID < o.ID)) || (p.A == 0 && o.A == 0)
+					if !ok {
+						bad = fmt.Sprintf("rows %d,%d out of order after sort: %+v then %+v", i-1, i, p, o)
+						return
+					}
+				}
+			}
+		})
+		c.Res.Evaluations++
+		if msg != "" {
+			c.Violation("large-buffer", what+": "+msg, replay)
+		} else if bad != "" {
+			c.Violation("large-buffer", what+": "+bad, replay)
+		}
+		c.Case("large/buffer", fmt.Sprint(before), true)
+	}
+}
+
 func c10Sign(x int) byte {
 	switch {
 	case x < 0:
@@ -1585,6 +1675,7 @@ func runC10(c *core.Ctx) {
 		addVm(cs, obs)
 		c.Sample(cs)
 	}
+	c10Large(c)
 
 	// ---- every direction x null order x column kind, single sorting column, runs around the kernel threshold
 	for _, kind := range []string{"generic", "buffer", "rowbuffer"} {
@@ -1739,6 +1830,10 @@ func replayC10(c *core.Ctx, raw json.RawMessage) {
 	var cs c10Case
 	if err := json.Unmarshal(raw, &cs); err != nil || cs.Kind == "" {
 		c.Note("replay is not a C10 case; rerun the check with the recorded seed")
+		return
+	}
+	if cs.Kind == "large-buffer" {
+		c10Large(c)
 		return
 	}
 	c10Run(c, &cs, "replay")
